@@ -152,6 +152,8 @@ pub fn alphabet(cfg: &Config) -> Alpha {
             (va4(5, 5, 5, 5), va4(5, 5, 5, 5)),
             (va4(0, 0, 0, 0), va4(255, 511, 511, 511)),
             (va4(0, 0, 0, 0), va4(511, 511, 511, 511)),
+            (va4(3, 3, 3, 100), va4(5, 3, 3, 200)),
+            (va4(3, 3, 3, 100), va4(3, 5, 3, 100)),
         ]
     } else if cfg.variant == 'A' || cfg.variant == 'W' {
         vec![
@@ -167,6 +169,8 @@ pub fn alphabet(cfg: &Config) -> Alpha {
             (va4(4, 0, 0, 0), va4(4, 511, 511, 511)),       // the other L3 table only
             (va4(0, 0, 0, 0), va4(255, 511, 511, 511)),     // lower half
             (va4(0, 0, 0, 0), va4(511, 511, 511, 511)),     // everything (spans the gap)
+            (va4(3, 5, 7, 100), va4(4, 5, 7, 200)),         // ends with equal level-3/2 indices in different level-4 slots
+            (va4(3, 5, 7, 100), va4(3, 6, 7, 100)),         // ends with equal level-2/1 indices in different level-3 slots
         ]
     } else {
         vec![
@@ -182,6 +186,8 @@ pub fn alphabet(cfg: &Config) -> Alpha {
             (va4(256, 0, 0, 0), va4(511, 511, 511, 511)),
             (va4(0, 0, 0, 0), va4(255, 511, 511, 511)),
             (va4(0, 0, 0, 0), va4(511, 511, 511, 511)),
+            (va4(0, 0, 0, 100), va4(255, 0, 0, 200)),
+            (va4(255, 511, 511, 100), va4(511, 511, 511, 100)),
         ]
     };
     // probe addresses
@@ -286,6 +292,12 @@ pub fn actions(al: &Alpha) -> Vec<(Act, u8)> {
         }
         // outside the quantified domain: flags without PRESENT
         v.push((Act::Update { page: pi, flags: LEAF_OOD }, 1));
+        // ... handed to the map calls: map_to derives non-present parent flags from them, map_to_with_table_flags gets them
+        // explicitly (the pinned crate panics where it would have to walk through a non-present parent entry it just wrote;
+        // whatever a call does, it may touch page-table memory only)
+        v.push((Act::Map { page: pi, frame: 0, flags: LEAF_OOD, parent: 255, sched: 0 }, 1));
+        v.push((Act::Map { page: pi, frame: 0, flags: LEAF_OOD, parent: 0, sched: 0 }, 1));
+        v.push((Act::Map { page: pi, frame: 0, flags: 0, parent: PARENT_OOD, sched: 0 }, 1));
         for level in [4u8, 3, 2] {
             v.push((Act::SetP { level, page: pi, flags: PARENT_OOD }, 1));
         }
@@ -479,7 +491,12 @@ fn do_sized<S: PageSize, M: Mapper<S>>(m: &mut M, act: &Act, al: &Alpha, page_va
                     out.flush_page = Some(f.page().start_address().as_u64());
                     f.ignore();
                 }
-                Err(e) => out.oc = map_err(e),
+                Err(e) => {
+                    if let MapToError::PageAlreadyMapped(f) = &e {
+                        out.frame = Some(f.start_address().as_u64());
+                    }
+                    out.oc = map_err(e)
+                }
             }
         }
         Act::Ident { flags, .. } => {
@@ -490,7 +507,12 @@ fn do_sized<S: PageSize, M: Mapper<S>>(m: &mut M, act: &Act, al: &Alpha, page_va
                     out.flush_page = Some(f.page().start_address().as_u64());
                     f.ignore();
                 }
-                Err(e) => out.oc = map_err(e),
+                Err(e) => {
+                    if let MapToError::PageAlreadyMapped(f) = &e {
+                        out.frame = Some(f.start_address().as_u64());
+                    }
+                    out.oc = map_err(e)
+                }
             }
         }
         Act::Unmap { .. } => match m.unmap(page) {
@@ -533,7 +555,7 @@ fn do_sized<S: PageSize, M: Mapper<S>>(m: &mut M, act: &Act, al: &Alpha, page_va
 }
 
 pub fn is_ood_action(act: &Act) -> bool {
-    matches!(act, Act::Update { flags, .. } if *flags == LEAF_OOD) || matches!(act, Act::SetP { flags, .. } if *flags == PARENT_OOD || *flags == PARENT_P4_HUGE) || matches!(act, Act::Map { flags, .. } if *flags == LEAF_PAT_HUGE)
+    matches!(act, Act::Update { flags, .. } if *flags == LEAF_OOD) || matches!(act, Act::SetP { flags, .. } if *flags == PARENT_OOD || *flags == PARENT_P4_HUGE) || matches!(act, Act::Map { flags, parent, .. } if *flags == LEAF_PAT_HUGE || *flags == LEAF_OOD || *parent == PARENT_OOD)
 }
 
 /// page (size, start) an action works on
